@@ -2,28 +2,56 @@
 (***************************************************************************)
 (* Property C19, part 2: the other process globals an evaluation can see.  *)
 (*                                                                         *)
-(* Value-state machine.  State = what is global to the process and what    *)
-(* the last public evaluation answered:                                    *)
+(* State = what is global to the process, ONE compiled object that is used *)
+(* again and again, and what the last public evaluation answered:          *)
 (*   env   the set of environment variables that are set (os.environ)      *)
 (*   dctx  the decimal context of the thread (decimal.getcontext())        *)
-(*   res   abstract result of the last evaluation                          *)
+(*   obj   the object the evaluations go through: one parsed "token", one  *)
+(*         "selector", one "parser" instance (a fresh parse per            *)
+(*         evaluation), or a function item ("fnitem": a named function     *)
+(*         reference fn:environment-variable#1 / available-environment-    *)
+(*         variables#0 created by the first evaluation and CALLED by the   *)
+(*         following ones)                                                 *)
+(*   fun   which of the two environment functions the object evaluates     *)
+(*   hist  the allow_environment flags of the evaluations made through obj *)
+(*   res   abstract result of the last evaluation, last = what it was      *)
 (* The application may set / unset variables between evaluations (App      *)
-(* actions); evaluations (Eval actions) must not.  With default settings   *)
-(* (allow_environment = FALSE) nothing of env is observable; XML text      *)
-(* with a DOCTYPE that declares entities is rejected by fn:parse-xml and   *)
-(* fn:parse-xml-fragment when the parser has its default defuse_xml = TRUE.*)
-(* Outside: defuse_xml = FALSE, DOCTYPEs that declare no entity (result     *)
-(* <<"any">>), the values of the variables (identified with their names).  *)
+(* actions); evaluations must not.                                         *)
+(*                                                                         *)
+(* THE ENVIRONMENT GATE.  The answer of an evaluation depends on its OWN   *)
+(* dynamic context and on os.environ at that moment, never on the history  *)
+(* of the object: with default settings (allow = FALSE) nothing of env is  *)
+(* observable whatever was evaluated before through the same token,        *)
+(* Selector or parser; with allow = TRUE the answer is exactly env now.    *)
+(* A function item is the one exception the language makes: a named        *)
+(* function reference to a context dependent function captures the dynamic *)
+(* context of its creation (XPath 3.1, 3.1.6), so its calls are gated by   *)
+(* the allow flag of the CREATING evaluation (hist[1]).                    *)
+(*                                                                         *)
+(* ENTITIES.  XML text with a DOCTYPE that declares entities is rejected   *)
+(* by fn:parse-xml, fn:parse-xml-fragment and by the defuse_xml helper     *)
+(* when the parser has its default defuse_xml = TRUE - wherever the        *)
+(* DOCTYPE is: after a prolog (comment, PI, blanks, XML declaration +      *)
+(* comment) of ANY size, whatever kind of entity is declared and wherever  *)
+(* it is referenced.                                                       *)
+(* Outside: defuse_xml = FALSE, DOCTYPEs that declare no entity (result    *)
+(* <<"any">>), the values of the variables (identified with their names),  *)
+(* fn:doc (context documents are already parsed trees).                    *)
 (***************************************************************************)
-EXTENDS Naturals, FiniteSets, TLC
+EXTENDS Naturals, Sequences, FiniteSets, TLC
 
 CONSTANTS Names,      \* abstract environment variable names
+          Objects,    \* subset of {"token", "selector", "parser", "fnitem"}
+          MaxHist,    \* evaluations through one object
+          Apis,       \* subset of {"parse-xml", "parse-xml-fragment", "defuse_xml"}
           EntKinds,   \* kinds of XML text, see Declares
-          Prefixes,   \* what precedes the DOCTYPE / the root element
+          Prologs,    \* what precedes the DOCTYPE / the root element
+          Sizes,      \* length of the prolog in characters
+          RefPos,     \* where the entity is referenced: "content" | "attr"
           Ops         \* arithmetic evaluations that use the decimal module
 
-VARIABLES env, dctx, res, last
-vars == <<env, dctx, res, last>>
+VARIABLES env, dctx, obj, fun, hist, res, last
+vars == <<env, dctx, obj, fun, hist, res, last>>
 
 InitCtx == [prec |-> 28, rounding |-> "ROUND_HALF_EVEN", traps |-> "default"]
 NoEval == [kind |-> "app", allow |-> FALSE, ek |-> "none"]
@@ -33,58 +61,85 @@ Declares(ek) == ek \in {"internal", "internal_unused", "external", "parameter", 
 (* the answers, as functions of what the evaluation may look at *)
 EnvVarRes(n, allow, e) == IF allow /\ n \in e THEN <<"value", n>> ELSE <<"empty">>
 AvailRes(allow, e)     == IF allow THEN <<"names", e>> ELSE <<"empty">>
-ParseRes(fn, ek)       == IF Declares(ek) THEN <<"reject">>
-                          ELSE IF ek = "none" THEN <<"doc">> ELSE <<"any">>
+ParseRes(api, ek, pre, size, ref) ==
+  IF Declares(ek) THEN <<"reject">> ELSE IF ek = "none" THEN <<"doc">> ELSE <<"any">>
 
-Init == env \in SUBSET Names /\ dctx = InitCtx /\ res = <<"none">> /\ last = NoEval
+(* which allow flag gates an evaluation made through the object after the history h *)
+Gate(o, h, allow) == IF o = "fnitem" /\ h # <<>> THEN h[1] ELSE allow
+
+Init == /\ env \in SUBSET Names /\ dctx = InitCtx
+        /\ obj \in Objects /\ fun \in {"envvar", "avail"} /\ hist = <<>>
+        /\ res = <<"none">> /\ last = NoEval
 
 (* ---- the application ----------------------------------------------------- *)
-SetVar(n)   == n \notin env /\ env' = env \cup {n} /\ res' = <<"none">> /\ last' = NoEval /\ UNCHANGED dctx
-UnsetVar(n) == n \in env /\ env' = env \ {n} /\ res' = <<"none">> /\ last' = NoEval /\ UNCHANGED dctx
+SetVar(n)   == /\ n \notin env /\ env' = env \cup {n} /\ res' = <<"none">> /\ last' = NoEval
+               /\ UNCHANGED <<dctx, obj, fun, hist>>
+UnsetVar(n) == /\ n \in env /\ env' = env \ {n} /\ res' = <<"none">> /\ last' = NoEval
+               /\ UNCHANGED <<dctx, obj, fun, hist>>
 App == \E n \in Names : SetVar(n) \/ UnsetVar(n)
 
-(* ---- evaluations ------------------------------------------------------------ *)
+(* ---- evaluations through the one object ---------------------------------------- *)
+Created == obj = "fnitem" /\ hist = <<>>     \* the first evaluation only creates the function item
+
 EnvVar(n, allow) ==      \* fn:environment-variable($n)
-  /\ res' = EnvVarRes(n, allow, env)
-  /\ last' = [kind |-> "envvar", allow |-> allow, ek |-> "none"]
-  /\ UNCHANGED <<env, dctx>>
+  /\ fun = "envvar" /\ Len(hist) < MaxHist
+  /\ res' = IF Created THEN <<"item">> ELSE EnvVarRes(n, Gate(obj, hist, allow), env)
+  /\ last' = [kind |-> IF Created THEN "create" ELSE "envvar", allow |-> Gate(obj, hist, allow), ek |-> "none"]
+  /\ hist' = Append(hist, allow)
+  /\ UNCHANGED <<env, dctx, obj, fun>>
 
 AvailVars(allow) ==      \* fn:available-environment-variables()
-  /\ res' = AvailRes(allow, env)
-  /\ last' = [kind |-> "avail", allow |-> allow, ek |-> "none"]
-  /\ UNCHANGED <<env, dctx>>
+  /\ fun = "avail" /\ Len(hist) < MaxHist
+  /\ res' = IF Created THEN <<"item">> ELSE AvailRes(Gate(obj, hist, allow), env)
+  /\ last' = [kind |-> IF Created THEN "create" ELSE "avail", allow |-> Gate(obj, hist, allow), ek |-> "none"]
+  /\ hist' = Append(hist, allow)
+  /\ UNCHANGED <<env, dctx, obj, fun>>
 
-ParseXml(fn, ek, pre) == \* fn:parse-xml / fn:parse-xml-fragment with defuse_xml = TRUE
-  /\ res' = ParseRes(fn, ek)
+(* ---- evaluations that do not depend on the object: offered in one base configuration *)
+Base == hist = <<>> /\ obj = "selector" /\ fun = "envvar" /\ last = NoEval
+
+ParseXml(api, ek, pre, size, ref) ==
+  /\ Base
+  /\ size > 100 => env = {}     \* the text functions never look at the environment: the long texts are
+                                 \* offered in the empty environment only
+  /\ res' = ParseRes(api, ek, pre, size, ref)
   /\ last' = [kind |-> "parse", allow |-> FALSE, ek |-> ek]
-  /\ UNCHANGED <<env, dctx>>
+  /\ UNCHANGED <<env, dctx, obj, fun, hist>>
 
 DefaultCollation ==      \* fn:default-collation() of a parser built with default settings in a C-locale
-  /\ res' = <<"codepoint">>   \* process: LC_ALL / LC_COLLATE / LANG of the environment are not consulted
+  /\ Base                \* process: LC_ALL / LC_COLLATE / LANG of the environment are not consulted
+  /\ res' = <<"codepoint">>
   /\ last' = [kind |-> "defcoll", allow |-> FALSE, ek |-> "none"]
-  /\ UNCHANGED <<env, dctx>>
+  /\ UNCHANGED <<env, dctx, obj, fun, hist>>
 
 Decimal(op) ==           \* xs:decimal arithmetic, rounding, casts, fn:format-number of huge values
+  /\ Base
   /\ res' = <<"any">>
   /\ last' = [kind |-> "decimal", allow |-> FALSE, ek |-> "none"]
-  /\ UNCHANGED <<env, dctx>>
+  /\ UNCHANGED <<env, dctx, obj, fun, hist>>
 
 Next == \/ \E n \in Names : SetVar(n)
         \/ \E n \in Names : UnsetVar(n)
         \/ \E n \in Names, a \in BOOLEAN : EnvVar(n, a)
         \/ \E a \in BOOLEAN : AvailVars(a)
-        \/ \E fn \in {"parse-xml", "parse-xml-fragment"}, ek \in EntKinds, pre \in Prefixes : ParseXml(fn, ek, pre)
+        \/ \E api \in Apis, ek \in EntKinds, pre \in Prologs, size \in Sizes, ref \in RefPos :
+              ParseXml(api, ek, pre, size, ref)
         \/ \E op \in Ops : Decimal(op)
         \/ DefaultCollation
 
 Spec == Init /\ [][Next]_vars
 
-TypeOK == env \subseteq Names /\ dctx = InitCtx
+TypeOK == /\ env \subseteq Names /\ dctx = InitCtx /\ obj \in Objects
+          /\ Len(hist) <= MaxHist /\ \A i \in 1..Len(hist) : hist[i] \in BOOLEAN
 
 (* evaluations leave os.environ and the decimal context untouched *)
 EvalPreserves == [][(env' # env \/ dctx' # dctx) => App]_vars
-(* with default settings no environment variable is observable ...                  *)
+(* with default settings no environment variable is observable, WHATEVER THE HISTORY  *)
+(* of the object (for a function item: default settings of the creating evaluation)   *)
 BlindByDefault == (last.kind \in {"envvar", "avail"} /\ ~last.allow) => res = <<"empty">>
+HistoryBlind ==       \* the gate never looks at earlier evaluations of a token / Selector / parser
+  \A o \in Objects \ {"fnitem"}, a \in BOOLEAN :
+     \A h1 \in {<<>>, <<TRUE>>, <<FALSE>>, <<TRUE, TRUE>>, <<TRUE, FALSE>>} : Gate(o, h1, a) = a
 (* ... i.e. the answer is the same in every environment (non-interference)           *)
 NonInterference ==
   \A e1 \in SUBSET Names, e2 \in SUBSET Names :
@@ -92,8 +147,13 @@ NonInterference ==
      /\ \A n \in Names : EnvVarRes(n, FALSE, e1) = EnvVarRes(n, FALSE, e2)
 (* the static default collation does not depend on the environment either             *)
 CollationBlind == last.kind = "defcoll" => res = <<"codepoint">>
-(* and when it is allowed the answer is exactly the environment                       *)
-AllowedIsExact == (last.kind = "avail" /\ last.allow) => res = <<"names", env>>
-(* an entity-declaring text is never turned into a document *)
+(* and when it is allowed the answer is exactly the environment AT THAT TIME          *)
+AllowedIsExact == /\ (last.kind = "avail" /\ last.allow) => res = <<"names", env>>
+                  /\ (last.kind = "envvar" /\ last.allow) => res[1] \in {"value", "empty"}
+(* an entity-declaring text is never turned into a document ...                       *)
 NeverExpanded == (last.kind = "parse" /\ Declares(last.ek)) => res = <<"reject">>
+(* ... wherever the DOCTYPE starts, whatever precedes it, wherever the reference is    *)
+PositionBlind ==
+  \A api \in Apis, ek \in EntKinds, p1 \in Prologs, p2 \in Prologs, s1 \in Sizes, s2 \in Sizes,
+     r1 \in RefPos, r2 \in RefPos : ParseRes(api, ek, p1, s1, r1) = ParseRes(api, ek, p2, s2, r2)
 =============================================================================
